@@ -13,9 +13,10 @@ CHECKS = {
             "explicit-state exploration of the real game object: every knowledge set, Euler walk over every lattice edge, BFS over dirty runs; oracle = hidden game",
             "Every hidden game of a completely enumerated integer/dyadic lattice (n=3: all 1276 superadditive games x 3 shifts; n=4: closure-rule games) "
             "is run through the complete knowledge lattice (8 / 1024 sets) on fresh objects, along a closed walk that uses every reveal/un-reveal edge on one "
-            "long-lived object, and through all dirty operation runs of length <= 2; at every clean state the real table is compared with the hidden game. "
-            "Bounded-exhaustive, not a proof for n >= 5 or for float inputs outside the enumerated families.",
-            "Trusts numpy float64 arithmetic on exactly representable values; snapshot/restore uses the public copy(); float families use the G2 tolerance.",
+            "long-lived object, and through all dirty operation runs of length <= 2 (incl. bulk resets, and runs on an object that served another game before: 'prelife'); at every "
+            "clean state the real table is compared with the hidden game. Value-scale variants of every game (2^20 additive shift, 2^-30 units, 2^33), layered knowledge "
+            "sets at n = 5..9 (10). Bounded-exhaustive, not a proof for n >= 5 or for float inputs outside the enumerated families.",
+            "Trusts numpy float64 arithmetic on exactly representable values; states are snapshotted with copy.deepcopy and the first history per root and depth is re-executed from scratch; float families use the G2 tolerance.",
             "DESIGN.md §6 C01"),
     "C02": ("E1 lattice explorer",
             "explicit-state exploration of every knowledge set; oracle = explicit set-partition enumeration + exhaustive enumeration of integer completions",
@@ -48,8 +49,9 @@ CHECKS = {
     "C08": ("E1 lattice explorer + env walk",
             "explicit-state BFS over operation histories (reveal, un-reveal, bulk reset, set, unset, compute) with digest de-duplication; differential oracle = fresh object at the same knowledge",
             "All six computers, games of any class: every clean state reached by the Euler walk (every edge both ways on one long-lived object) and by every "
-            "dirty run of <= d operations must carry exactly the table a fresh object gets for that knowledge; compute is idempotent; step;unstep restores every "
-            "observable of the real environment from every env state (n=3 all, n=4 selected games).",
+            "dirty run of <= d operations (incl. re-reveal with a different value, writes through the bulk bound setters, and read-only observers, which must not change "
+            "anything) must carry exactly the table a fresh object gets for that knowledge; compute is idempotent; every env state reached by step / unstep(any) / reset "
+            "equals a fresh environment that revealed the same set (n=3 all, n=4..7 selected games, knowledge set directly on the env's game included).",
             "d = 1 (2 on an eighth of the games) quick, 2 (3 on 1/16) thorough; quick explores a third of the 3-player games per seed.",
             "DESIGN.md §6 C08"),
     "C05": ("E5 generic-point execution + basis/lattice enumeration",
@@ -57,14 +59,16 @@ CHECKS = {
             "The real compute_exploitability is executed on indeterminate bounds (exact coefficient of every lower/upper bound for n=2..7(8)); every unit bound vector "
             "(basis) through the float path; all 4096 three-player bound vectors over four interval shapes and canonical tables of the real computer (n=3,4): value == "
             "binomially weighted gap, sign, zero iff degenerate; for each of them every vertex completion of the box is enumerated and the per-player maximum used by the "
-            "code compared with the maximum of the orderings-Shapley value over the vertices; numerical spot checks of the identity at n = 9, (12, 16,) 17.",
+            "code compared with the maximum of the orderings-Shapley value over the vertices; numerical spot checks of the identity at n = 9, (12, 16,) 17; "
+            "offsets of 2^33, tiny units, exactly-minimal knowledge under prescribed / SAM bounds; the whole check is run a second time under python -O.",
             "Linearity of the executed path is established by the guard run (no solver); float comparisons within 1e-11*scale*n.",
             "DESIGN.md §6 C05"),
     "C06": ("E5 generic-point execution + basis x orderings enumeration",
             "complete enumeration: every unit game x all n! orderings per n, all games of two small lattices; real code executed on indeterminates as linearity guard",
             "For each n=2..7(8) the exact coefficient of every v(S) in every player's value (real code on indeterminates) equals the count over all n! orderings; every unit "
             "game through the real float path via both entry points; all 2187 three-player games over {-1,0,1}, all 2048 four-player 0/1 games, 729 mixed games; efficiency, "
-            "null players, relabellings, additivity on all pairs of basis games; 138 large-magnitude games M*u + small perturbation.",
+            "null players, relabellings, additivity on all pairs of basis games; 138 large-magnitude games M*u + small perturbation; "
+            "unanimity combinations at n = 16, 17, one evaluation at n = 20; re-entrant value lookups, abandoned and interleaved value iterators; second pass under python -O.",
             "n=9,10 efficiency/symmetry only; float rounding bounded by 1e-12*scale, not enumerated.",
             "DESIGN.md §6 C06"),
     "C09": ("E1 env explorer",
@@ -72,14 +76,15 @@ CHECKS = {
             "The real ICG_Gym with a scripted hidden-game generator is explored to closure (n=3: every knowledge state x script position; n=4: all 1024 or the 16/64 states with "
             "pairs/triples known from the start); after EVERY transition all observables and the call's return value are compared with a dict reference environment "
             "(known set, hidden values, mask, normalised observation, reward = -first-principles gap of fresh bounds, done predicate, info, step counter) for every matching "
-            "computer x four gap functions x budgets.",
+            "computer x four gap functions x budgets; two environments of one ModelInstance interleaved; n = 6, 7 configurations with depth bounds.",
             "States are deep copies of the env; dedup on (model state, canonical digest of all attributes); nearly additive hidden games use the library's normalised copy for the observation.",
             "DESIGN.md §6 C09"),
     "C10": ("configuration sweep",
             "complete enumeration of the generator registry x player counts x a seed window x two identically seeded calls; exact-rational class predicates",
             "Every registry key except 'convex' x n=3..7 (thorough 8) x every seed of a window moved by VERIF_SEED: runs, right size/dtype, v(empty)=0, superadditive within the "
             "documented 1e-9 tolerance decided in exact rationals, monotone for the SAM families, identical for identical seeds except the documented exceptions "
-            "(the first result is scribbled over before the second call); call histories per generator in freshly forked processes: every ordered pair of player counts.",
+            "(the first result is scribbled over before the second call); call histories per generator in freshly forked processes: every ordered pair of player counts; "
+            "a 4096-seed (thorough 16384) determinism window for the generators with data-dependent loops.",
             "'All seeds' is met by a complete window; 'convex' needs the absent pyfmtools.",
             "DESIGN.md §6 C10"),
     "C11": ("E2 deterministic pool + enumeration",
@@ -87,7 +92,8 @@ CHECKS = {
             "get_exploitabilities_of_action_sequences for every starting knowledge (n=3 all; n=4 selected) x size limit x every worker count p x chunk->worker assignments on "
             "DetPool (real forked workers, chunks pickled as units), conformance runs on the real Pool; enumerated sets == all subsets once, gaps == gap of a fresh game with "
             "that knowledge, schedule independent (superadditive AND approximate-SAM computers); MetaGame values for all meta-coalitions; get_best_exploitability vs "
-            "exhaustive per-size optimum, incl. games whose optimum is exactly 0 before everything is revealed.",
+            "exhaustive per-size optimum, incl. games whose optimum is exactly 0 before everything is revealed, tiny units, near-ties, "
+            "and environments that have already revealed coalitions.",
             "forkserver start method, worker crashes and timing are not modelled.",
             "DESIGN.md §6 C11"),
     "C12": ("E2 deterministic pool",
